@@ -92,13 +92,23 @@ fn tail_call_closure_contract() {
 #[kani::proof]
 #[kani::unwind(7)]
 fn tail_call_rest_args_contract() {
+    rest_args_check(0);
+    rest_args_check(1);
+}
+
+#[kani::proof]
+#[kani::unwind(7)]
+fn tail_call_rest_args_two_contract() {
+    rest_args_check(2);
+}
+
+fn rest_args_check(passed: usize) {
     let (stack, vals) = any_stack();
     // (define (f a . rest)) : arity() == 2, is_multi_arity
     let callee = lambda(2, true, 2);
-    let passed: usize = kani::any();
-    kani::assume(passed <= 2);
-    let fsp: usize = kani::any();
-    kani::assume(fsp <= L - passed);
+    // frame pointer: directly below the arguments, or with one caller temporary in between
+    let gap: bool = kani::any();
+    let fsp: usize = L - passed - if gap { 1 } else { 0 };
     let mut t = thread_with(stack, fsp, lambda(1, false, 1), 0);
     let mut vm = core_on(&mut t, fsp, code(1));
     let r = vm.new_handle_tail_call_closure(callee.clone(), passed);
